@@ -29,6 +29,15 @@
   position (as Go's `Proof.Update` leaves them), and `(targets, proof)` is `canon` of exactly
   that list.
 
+  Hypothesis on the hash: the one-block theorems (`updateProofRemove_canonical`,
+  `updateProofAdd_canonical`, `proofUpdate_canonical`) need only `NZ H` (parent hashes are never
+  the zero hash).  The theorems that go through `Stump.Update` (its `NewAdd` is collected in a map
+  keyed by hash) exist in two forms: under `CR H` (`proofUpdate_with_stump`, `client_history`, …;
+  `CR` is impossible for a finite hash type) and under `NZ H` + the finite, decidable hypotheses
+  `NodesDistinct` / `DistinctRun` of `Proofs/NodesUnique.lean` (`proofUpdate_with_stump_nd`,
+  `client_history_nd`, `client_history_every_step_nd`; instantiated over a one-byte hash in
+  `Props/NZ.lean`).
+
   Hypothesis on the remember indexes: ascending (`Pairwise (· ≤ ·)`).  For unsorted indexes the
   Go loop silently drops remembered leaves: `unsorted_remembers_drop` (model) below.
 -/
@@ -138,7 +147,7 @@ theorem updateProofRemove_canonical {F : Forest H} (hn : F.numLeaves ≤ 2 ^ 63)
   ProofUpdateRemove.updateProofRemove_canonical hn hnz hlive hnd hC hD hcC hcD
 
 /-- **Level 4: `updateProofAdd` is canonical** (see `Proofs/ProofUpdateAdd.lean`) -/
-theorem updateProofAdd_canonical {F : Forest H} {adds : List H} (cr : CR H)
+theorem updateProofAdd_canonical {F : Forest H} {adds : List H} (nz : NZ H)
     (hN : F.numLeaves + adds.length ≤ 2 ^ 63)
     (hndG : (F.addMany adds).liveLeaves.Nodup)
     (hleaf : ∀ x ∈ (F.addMany adds).liveLeaves, x ≠ (zero : H) ∧ ∀ a b : H, x ≠ ph a b)
@@ -151,7 +160,7 @@ theorem updateProofAdd_canonical {F : Forest H} {adds : List H} (cr : CR H)
       updateProofAdd ⟨tgF.map (E F.rows), hsF⟩ adds K' remembers upd
           (BitVec.ofNat 64 F.numLeaves) td =
         .ok (⟨tgG.map (E (F.addMany adds).rows), hsG⟩, K'') :=
-  ProofUpdateAdd.updateProofAdd_canonical cr hN hndG hleaf hcF hsorted hspec remembers hrem
+  ProofUpdateAdd.updateProofAdd_canonical nz hN hndG hleaf hcF hsorted hspec remembers hrem
 
 /-! ### Level 5: one block -/
 
@@ -176,7 +185,7 @@ remember indexes ascend.  Then `Proof.Update` returns, without error, the canoni
 def proofUpdate_statement : Prop :=
   ∀ (F : Forest H) (C D adds : List H) (tgC tgD : List Pos) (hsC hsD : List H)
     (remembers : List Nat) (ud : UpdateDataM H),
-    CR H → F.numLeaves + adds.length ≤ 2 ^ 63 → F.liveLeaves.Nodup →
+    NZ H → F.numLeaves + adds.length ≤ 2 ^ 63 → F.liveLeaves.Nodup →
     (∀ x ∈ F.liveLeaves, x ≠ (zero : H) ∧ ∀ a b : H, x ≠ ph a b) →
     (∀ x ∈ adds, x ≠ (zero : H) ∧ ∀ a b : H, x ≠ ph a b) → adds.Nodup →
     (∀ x ∈ adds, x ∈ F.liveLeaves → x ∈ D) →
@@ -195,17 +204,17 @@ end statement
 
 /-- **C07 for one block** -/
 theorem proofUpdate_canonical : proofUpdate_statement H := by
-  intro F C D adds tgC tgD hsC hsD remembers ud cr hN hnd hleaf hadds haddsnd hnew hD hcD hC hcC
+  intro F C D adds tgC tgD hsC hsD remembers ud nz hN hnd hleaf hadds haddsnd hnew hD hcD hC hcC
     hrem hud1 hud2 hud3
   have hn : F.numLeaves ≤ 2 ^ 63 := by omega
   obtain ⟨K', tgK', hsK', hperm1, hcK', hsorted, hrm⟩ :=
-    ProofUpdateRemove.updateProofRemove_canonical hn cr.nonzero (fun l hl => (hleaf l hl).1) hnd hC hD
+    ProofUpdateRemove.updateProofRemove_canonical hn nz.nonzero (fun l hl => (hleaf l hl).1) hnd hC hD
       hcC hcD
   obtain ⟨g1, g2⟩ := addMany_delLeaves_ok (dels := D) hnd hleaf hadds haddsnd hnew
   have hn' : (F.delLeaves D).numLeaves = F.numLeaves := delLeaves_numLeaves F D
   have hrows : (F.delLeaves D).rows = F.rows := by unfold Forest.rows; rw [hn']
   obtain ⟨K'', tgG, hsG, hperm2, hcG, hsortedG, had⟩ :=
-    ProofUpdateAdd.updateProofAdd_canonical (F := F.delLeaves D) cr (by rw [hn']; exact hN) g1 g2 hcK'
+    ProofUpdateAdd.updateProofAdd_canonical (F := F.delLeaves D) nz (by rw [hn']; exact hN) g1 g2 hcK'
       hsorted hud3 remembers hrem
   refine ⟨K'', tgG, hsG, ?_, hcG, hsortedG, ?_⟩
   · exact hperm2.trans (List.Perm.append_right _ hperm1)
@@ -245,7 +254,7 @@ theorem proofUpdate_with_stump (cr : CR H) (nonZero : H) (hnz : nonZero ≠ (zer
   obtain ⟨ud, h1, h2, h3, h4⟩ := stump_update_data cr nonZero hnz F (C01b.stumpOf F) D adds tgD hsD
     junk rfl rfl hN hnd hleaf hadds haddsnd hnew hD hcD
   obtain ⟨C', tg', hs', g1, g2, g3, g4⟩ := proofUpdate_canonical F C D adds tgC tgD hsC hsD remembers
-    (toM ud) cr hN hnd hleaf hadds haddsnd hnew hD hcD hC hcC hrem h2 h3 h4
+    (toM ud) cr.toNZ hN hnd hleaf hadds haddsnd hnew hD hcD hC hcC hrem h2 h3 h4
   exact ⟨ud, C', tg', hs', h1, g1, g2, g3, g4⟩
 
 /-! ### Level 5: along a valid history -/
@@ -449,6 +458,140 @@ theorem client_history_every_step (cr : CR H) (nonZero : H) (hnz : nonZero ≠ (
     rw [e] at v
     exact validHistory_prefix v
   · exact fun b hb => hrem b (List.mem_of_mem_take hb)
+
+/-! ### Level 5 for a hash that is NOT collision-free
+
+`CR H` (impossible for a finite hash type) is replaced by `NZ H` (parent hashes are never the zero
+hash) and FINITE hypotheses about the forests at hand: `NodesDistinct G` for the forest `G` after
+the block (no non-zero hash sits at two places of `G`), `DistinctRun` for every forest reached
+along a history (`Proofs/NodesUnique.lean`; decidable, implied by `CR`, and a violation is an
+explicit collision).  `Stump.Update` collects `NewAdd` in a map keyed by hash, hence the need. -/
+
+/-- **C07 for one block, fed by the verifier-state update, without collision-freeness** -/
+theorem proofUpdate_with_stump_nd (nz : NZ H) (nonZero : H) (hnz : nonZero ≠ (zero : H))
+    (F : Forest H) (C D adds : List H) (tgC tgD : List Pos) (hsC hsD junk : List H)
+    (remembers : List Nat)
+    (hN : F.numLeaves + adds.length ≤ 2 ^ 63) (hnd : F.liveLeaves.Nodup)
+    (hleaf : ∀ x ∈ F.liveLeaves, x ≠ (zero : H) ∧ ∀ a b : H, x ≠ ph a b)
+    (hadds : ∀ x ∈ adds, x ≠ (zero : H) ∧ ∀ a b : H, x ≠ ph a b) (haddsnd : adds.Nodup)
+    (hnew : ∀ x ∈ adds, x ∈ F.liveLeaves → x ∈ D)
+    (hD : D.Nodup) (hcD : F.canon D = some (tgD, hsD))
+    (hC : C.Nodup) (hcC : F.canon C = some (tgC, hsC))
+    (hrem : remembers.Pairwise (· ≤ ·))
+    (hd : NodesDistinct (F.modify D adds)) :
+    ∃ (ud : UpdateData H) (C' : List H) (tg' : List Pos) (hs' : List H),
+      (C01b.stumpOf F).update nonZero D adds (C01.encTargets F.rows tgD) (hsD ++ junk) =
+        .ok (C01b.stumpOf (F.modify D adds), ud) ∧
+      C'.Perm (expected C D adds remembers) ∧
+      (F.modify D adds).canon C' = some (tg', hs') ∧ tg'.Pairwise Sorted.PLt ∧
+      proofUpdate ⟨tgC.map (E F.rows), hsC⟩ C adds (C01.encTargets F.rows tgD) remembers (toM ud) =
+        .ok (⟨tg'.map (E (F.modify D adds).rows), hs'⟩, C') := by
+  obtain ⟨ud, h1, h2, h3, h4⟩ := stump_update_data_nd nz nonZero hnz F (C01b.stumpOf F) D adds tgD hsD
+    junk rfl rfl hN hnd (fun x hx => (hleaf x hx).1) (fun x hx => (hadds x hx).1) hD hcD hd
+  obtain ⟨C', tg', hs', g1, g2, g3, g4⟩ := proofUpdate_canonical F C D adds tgC tgD hsC hsD remembers
+    (toM ud) nz hN hnd hleaf hadds haddsnd hnew hD hcD hC hcC hrem h2 h3 h4
+  exact ⟨ud, C', tg', hs', h1, g1, g2, g3, g4⟩
+
+/-- the induction of `client_from`, without collision-freeness -/
+theorem client_from_nd (nz : NZ H) (nonZero : H) (hnz : nonZero ≠ (zero : H)) :
+    ∀ (hist : List (CBlock H)) (F : Forest H) (C Cexp : List H) (tg : List Pos) (hs : List H),
+      Inv F hist → DistinctRun F (hist.map toBlock) →
+      C.Nodup → F.canon C = some (tg, hs) → C.Perm Cexp →
+      ∃ C' tg' hs',
+        clientRun nonZero F (⟨tg.map (E F.rows), hs⟩, C) hist =
+          some (⟨tg'.map (E (run F (hist.map toBlock)).rows), hs'⟩, C') ∧
+        (run F (hist.map toBlock)).canon C' = some (tg', hs') ∧
+        C'.Perm (expectedRun Cexp hist) := by
+  intro hist
+  induction hist with
+  | nil =>
+    intro F C Cexp tg hs _ _ _ hc hp
+    exact ⟨C, tg, hs, rfl, hc, hp⟩
+  | cons b rest ih =>
+    obtain ⟨d, a, r⟩ := b
+    intro F C Cexp tg hs inv hdr hC hc hp
+    have hsm := inv.ok.small
+    simp only [List.map_cons, toBlock, allAdds_cons, List.length_append] at hsm
+    have hN : F.numLeaves + a.length ≤ 2 ^ 63 := by omega
+    have hand := inv.ok.adds_nodup
+    simp only [List.map_cons, toBlock, allAdds_cons] at hand
+    have hleaf : ∀ x ∈ F.liveLeaves, x ≠ (zero : H) ∧ ∀ p q : H, x ≠ ph p q :=
+      fun x hx => ⟨inv.ok.live_nonzero x hx, inv.leafF x hx⟩
+    have hadds : ∀ x ∈ a, x ≠ (zero : H) ∧ ∀ p q : H, x ≠ ph p q := by
+      intro x hx
+      have hm : x ∈ allAdds (((d, a, r) :: rest).map toBlock) := by
+        simp only [List.map_cons, toBlock, allAdds_cons]
+        exact List.mem_append_left _ hx
+      exact ⟨inv.ok.adds_nonzero x hm, inv.leafA x hm⟩
+    have hnew : ∀ x ∈ a, x ∈ F.liveLeaves → x ∈ d := by
+      intro x hx hl
+      exact absurd hl (inv.ok.adds_new x (by
+        simp only [List.map_cons, toBlock, allAdds_cons]
+        exact List.mem_append_left _ hx))
+    have hD : d.Nodup := inv.dnd (d, a) (by simp [toBlock])
+    obtain ⟨tgD, hsD, hcD⟩ := C02.canon_defined (L := d) (by omega : F.numLeaves ≤ 2 ^ 63) inv.live.1
+    obtain ⟨ud, C', tg', hs', h1, h2, h3, h4, h5⟩ := proofUpdate_with_stump_nd nz nonZero hnz F C d a tg
+      tgD hs hsD [] r hN inv.ok.live_nodup hleaf hadds (List.nodup_append.1 hand).1 hnew hD hcD hC hc
+      (inv.rems (d, a, r) (by simp)) hdr.1
+    rw [List.append_nil] at h1
+    have hC' : C'.Nodup := by
+      have := h4
+      rw [canon_targets_eq h3, List.pairwise_map] at this
+      exact this.imp (fun {x y} hxy e => by rw [e] at hxy; exact PLt.irrefl _ hxy)
+    obtain ⟨C'', tg'', hs'', g1, g2, g3⟩ := ih (F.modify d a) C' (expected Cexp d a r) tg' hs'
+      inv.step hdr.2 hC' h3 (h2.trans (List.Perm.append_right _ (hp.filter _)))
+    refine ⟨C'', tg'', hs'', ?_, g2, g3⟩
+    rw [clientRun]
+    dsimp only
+    rw [hcD]
+    dsimp only
+    rw [h1]
+    dsimp only
+    rw [h5]
+    exact g1
+
+/-- **C07 along a valid history, without collision-freeness**: `NZ H`, and every forest reached
+along the history has pairwise distinct non-zero node hashes (`DistinctRun`). -/
+theorem client_history_nd (nz : NZ H) (nonZero : H) (hnz : nonZero ≠ (zero : H))
+    (hist : List (CBlock H)) (v : C01.ValidHistory (hist.map toBlock))
+    (hrem : ∀ b ∈ hist, b.2.2.Pairwise (· ≤ ·))
+    (hdr : DistinctRun Forest.empty (hist.map toBlock)) :
+    ∃ C tg hs,
+      clientRun nonZero Forest.empty (⟨[], []⟩, []) hist =
+        some (⟨tg.map (E (run Forest.empty (hist.map toBlock)).rows), hs⟩, C) ∧
+      (run Forest.empty (hist.map toBlock)).canon C = some (tg, hs) ∧
+      C.Perm (expectedRun [] hist) := by
+  have inv : Inv (Forest.empty : Forest H) hist :=
+    { ok := ⟨List.nodup_nil, fun x hx => (by cases hx), v.adds_nodup, fun x _ hx => (by cases hx),
+        fun x hx => (v.adds_leaf x hx).1, (by show 0 + _ ≤ _; have := v.small; omega)⟩
+      live := v.live
+      dnd := v.dels_nodup
+      leafF := fun x hx => (by cases hx)
+      leafA := fun x hx => (v.adds_leaf x hx).2
+      rems := hrem }
+  have hc0 : (Forest.empty : Forest H).canon [] = some ([], []) := rfl
+  obtain ⟨C, tg, hs, h1, h2, h3⟩ := client_from_nd nz nonZero hnz hist Forest.empty [] [] [] []
+    inv hdr List.nodup_nil hc0 (List.Perm.refl _)
+  exact ⟨C, tg, hs, h1, h2, h3⟩
+
+/-- **C07 at every step of a valid history, without collision-freeness** -/
+theorem client_history_every_step_nd (nz : NZ H) (nonZero : H) (hnz : nonZero ≠ (zero : H))
+    (hist : List (CBlock H)) (v : C01.ValidHistory (hist.map toBlock))
+    (hrem : ∀ b ∈ hist, b.2.2.Pairwise (· ≤ ·))
+    (hdr : DistinctRun Forest.empty (hist.map toBlock)) (k : Nat) :
+    ∃ C tg hs,
+      clientRun nonZero Forest.empty (⟨[], []⟩, []) (hist.take k) =
+        some (⟨tg.map (E (run Forest.empty ((hist.take k).map toBlock)).rows), hs⟩, C) ∧
+      (run Forest.empty ((hist.take k).map toBlock)).canon C = some (tg, hs) ∧
+      C.Perm (expectedRun [] (hist.take k)) := by
+  have e : hist.map toBlock = (hist.take k).map toBlock ++ (hist.drop k).map toBlock := by
+    rw [← List.map_append, List.take_append_drop]
+  apply client_history_nd nz nonZero hnz
+  · rw [e] at v
+    exact validHistory_prefix v
+  · exact fun b hb => hrem b (List.mem_of_mem_take hb)
+  · rw [e] at hdr
+    exact (distinctRun_append.1 hdr).1
 
 /-! ### non-vacuity; the model simply evaluated; the unsorted-remembers finding -/
 
